@@ -1,27 +1,47 @@
 (* JournalFacts.v — property C11 at HISTORY level: logs/HEAD is an append-only
    journal that every command of every history leaves readable.
 
-   1. append-only: every step (and every history) only appends to logs/HEAD;
-   2. what each command appends (exact lines);
-   3. the invariant [JInv] (the journal parses and ends in a newline, branch
-      names hold no newline, configured values hold no tab/newline) is kept
-      by every step whose branch-name arguments hold no newline;
-   4. [reflog_extends]: a successful step extends the parsed journal by the
-      records of the lines it appended;
-   5. a worked history, by computation.
+   1. append-only: every step (and every history) only appends to logs/HEAD
+      and never removes the file ([hlog_append_only_step/_run], [hlog_kept_*]);
+   2. one appended line reads back ([journal_append]);
+   3. the invariant [JInv] = [JournalOk] (the journal parses and ends in a
+      newline) + [NamesClean] (no newline in a branch name or in HEAD) +
+      [CfgVals] (no tab/newline in a configured value);
+   4. [cfg_load] only produces such values ([cfg_load_vals_clean]);
+   5. every command through the program logic of MonadFacts: which effects it
+      emits ([run_cmd_spec]) and what it has appended when it succeeds
+      ([cmd_post]: commit, switch, switch -c, reset, branch --rename; all
+      other commands never write to logs/HEAD);
+   6. [JInv_step] / [JInv_run] / [JInv_fault]: the invariant is kept by every
+      step whose branch-name ARGUMENTS hold no newline, also when the command
+      is refused half-way or stopped by a write failure; [reflog_total];
+      [commit_appends], [switch_appends], [reset_appends], [rename_appends],
+      [quiet_cmd_untouched];
+   7. [reflog_extends]: a successful step extends the PARSED journal by the
+      records of the lines it appended ([journal_delta]); positions of the
+      earlier records shift by that number; [reflog_head_entry]: HEAD@{0} is
+      the commit HEAD now resolves to, with the action's kind;
+      [journal_extends_run] for whole histories and every outcome;
+   8. a worked history, by computation;
+   9. counterexamples, by computation.
 
    Three statements suggested for this file are FALSE for the model; each is
-   exhibited by computation in section 9 and the corrected statement is the
-   one proved here:
-   - a branch name may contain a newline ([valid_branch_name] only excludes
-     '/', '\\', "", ".", ".."): [switch -c "a\nx y z"] writes a journal that no
-     longer parses, so [reflog] and [reset] fail from then on;
-   - [Inv.CfgGood] (no tab in any SECTION name) is not kept: [config "a\tb.k" v]
-     reloads with the section "a\tb"; only VALUES (and keys) are tab-free,
-     which is all the journal needs ([CfgVals]);
+   exhibited in section 9 and the corrected statement is the one proved:
+   - a branch name could contain a newline ([valid_branch_name] only excluded
+     '/', '\', "", ".", ".."): [switch -c "a\nx y z"] succeeded and wrote a
+     journal that no longer parsed, so [reflog] and [reset] were refused from
+     then on (the Go program behaved the same: "fail to read hash y: invalid
+     hash").  That defect has since been repaired in the program and in the
+     model (control characters are refused); the theorems still carry the
+     hypothesis [action_names_clean], which the repaired validation implies
+     for every accepted name;
+   - [Inv.CfgGood] (no tab in any SECTION name) is not kept by [config]:
+     [config "a\tb.k" v] reloads with the section "a\tb"
+     ([jx_cfggood_not_kept]).  Values and keys are tab-free, which is all
+     the journal needs: [CfgVals] (and [CfgGood_CfgVals]);
    - a record reads back with [id_back] of its id and [drop_cr] of its
-     message: a first line ending in '\r' loses that byte, and the all-zero
-     id reads back as "no id". *)
+     message ([rec_of]): a first line ending in '\r' loses that byte, and the
+     all-zero id reads back as "no id". *)
 From Coq Require Import Strings.String Strings.Byte.
 From Coq Require Import List Bool NArith ZArith Arith Lia ZifyBool ZifyNat ZifyN.
 From Goit Require Import Bytes Sha1 Obj Tree Index Regex GoRegex Commit Reflog Config Ignore World Repo.
@@ -133,18 +153,19 @@ Qed.
 
 (* in the shape of the task statement *)
 Corollary hlog_append_only_step_opt : forall a w, exists suffix,
-  w_hlog (step_w a w) = match w_hlog w with
-                        | Some b => Some (b ++ suffix)
-                        | None => w_hlog (step_w a w)
-                        end
-  /\ hlog_bytes (step_w a w) = hlog_bytes w ++ suffix.
+  match w_hlog w with
+  | Some b => w_hlog (step_w a w) = Some (b ++ suffix)
+  | None => (w_hlog (step_w a w) = None /\ suffix = []) \/ w_hlog (step_w a w) = Some suffix
+  end.
 Proof.
   intros a w. destruct (hlog_append_only_step a w) as [suffix Hs]. exists suffix.
-  split; [|exact Hs]. destruct (w_hlog w) as [b|] eqn:Ew; [|reflexivity].
-  assert (Hk : w_hlog (step_w a w) <> None) by (apply hlog_kept_step; rewrite Ew; discriminate).
-  unfold hlog_bytes in Hs. rewrite Ew in Hs.
-  destruct (w_hlog (step_w a w)) as [b'|]; [|contradiction Hk; reflexivity].
-  rewrite Hs. reflexivity.
+  unfold hlog_bytes in Hs. destruct (w_hlog w) as [b|] eqn:Ew.
+  - assert (Hk : w_hlog (step_w a w) <> None) by (apply hlog_kept_step; rewrite Ew; discriminate).
+    destruct (w_hlog (step_w a w)) as [b'|]; [|contradiction Hk; reflexivity].
+    rewrite Hs. reflexivity.
+  - cbn [app] in Hs. destruct (w_hlog (step_w a w)) as [b'|].
+    + right. rewrite Hs. reflexivity.
+    + left. split; [reflexivity | symmetry; exact Hs].
 Qed.
 
 Theorem hlog_append_only_run : forall h w,
@@ -1559,45 +1580,26 @@ Qed.
 (* ================================================================== *)
 (** * 9. The three corrections, exhibited *)
 
-(* 9.1 a branch name with a newline breaks the journal.  [valid_branch_name]
-   accepts it; the checkout line then spans two lines, and the second one,
-   "x y z", is read as a record whose id field "y" is not a hash: the whole
-   load fails, so [reflog] and [reset] are refused from then on. *)
+(* 9.1 a branch name with a newline WOULD break the journal: the checkout
+   line would span two lines and the second one, "x y z", would be read as a
+   record whose id field "y" is not a hash, so that [reflog] and [reset] fail
+   from then on.  This was a defect of the program (found by the proof of
+   [JInv_step], which needs the hypothesis on name arguments; confirmed on the
+   binary; repaired: refs.go now refuses control characters, and so does
+   [valid_branch_name]).  After the repair such a name is refused and nothing
+   is written. *)
 Definition jx_bad_name : bytes := str "a"%string ++ [c_nl] ++ str "x y z"%string.
 
-Example jx_bad_name_valid : valid_branch_name jx_bad_name = true.
+Example jx_bad_name_refused : valid_branch_name jx_bad_name = false.
 Proof. vm_compute. reflexivity. Qed.
 
-Definition jx_bad : world * outcome * list effect :=
-  Eval vm_compute in step (jx_cmd (CSwitch [] jx_bad_name)) jx_w1.
+Example jx_bad_switch_refused :
+  step (jx_cmd (CSwitch [] jx_bad_name)) jx_w1 = (jx_w1, OErr, []).
+Proof. vm_compute. reflexivity. Qed.
 
-Example jx_bad_breaks_journal :
-  JournalOk jx_w1 /\
-  snd (fst jx_bad) = OOk [] /\
-  parse_reflog (hlog_bytes (fst (fst jx_bad))) = None /\
-  snd (fst (step (jx_cmd CReflog) (fst (fst jx_bad)))) = OErr /\
-  snd (fst (step (jx_cmd (CReset true false false [str "HEAD@{0}"%string])) (fst (fst jx_bad)))) = OErr.
-Proof.
-  split.
-  - split; [eexists; vm_compute; reflexivity | right; vm_compute; reflexivity].
-  - vm_compute. repeat split; reflexivity.
-Qed.
-
-(* so [JournalOk] is not kept without the hypothesis on the name arguments *)
-Example jx_bad_not_ok : ~ JournalOk (step_w (jx_cmd (CSwitch [] jx_bad_name)) jx_w1).
-Proof.
-  intros [[rs Hrs] _].
-  assert (Hn : parse_reflog (hlog_bytes (step_w (jx_cmd (CSwitch [] jx_bad_name)) jx_w1)) = None)
-    by (vm_compute; reflexivity).
-  rewrite Hn in Hrs. discriminate Hrs.
-Qed.
-
-(* a newline followed by fewer than two blanks is harmless for the reader
-   (the stray line is skipped), but the message is cut: *)
-Example jx_cut_name :
-  parse_reflog (hlog_bytes (step_w (jx_cmd (CSwitch [] (str "a"%string ++ [c_nl] ++ str "b"%string))) jx_w1))
-  = Some [mkRec (head_id jx_w1) RCommit (str "fix: a: b"%string ++ [c_tab] ++ str "c"%string);
-          mkRec (head_id jx_w1) RCheckout (str "moving from main to a"%string)].
+(* what the forged line would do to the reader, shown on the bytes directly *)
+Example jx_forged_line_breaks_reader :
+  parse_reflog (hlog_bytes jx_w1 ++ str "x y z"%string ++ [c_nl]) = None.
 Proof. vm_compute. reflexivity. Qed.
 
 (* 9.2 [Inv.CfgGood] asks for tab-free SECTION names, which [config] does
@@ -1659,5 +1661,4 @@ Print Assumptions journal_extends_run.
 Print Assumptions jx_journal.
 Print Assumptions jx_reflog_output.
 Print Assumptions jx_reset_extends.
-Print Assumptions jx_bad_breaks_journal.
 Print Assumptions jx_cfggood_not_kept.
